@@ -439,10 +439,10 @@ pub fn check_case(c: &Case) -> Check {
             let got = covering_clique(&es, &vs, *colors, scheme);
             if got != want {
                 return Err(v(format!(
-                    "the input graph {} {}-colourable but the output graph {} a clique covering every input vertex",
+                    "the input graph {} {}-colourable but the output graph {} clique covering every input vertex",
                     if want { "is" } else { "is not" },
                     colors,
-                    if got { "has" } else { "has no" }
+                    if got { "has a" } else { "has no" }
                 )));
             }
             Ok(())
@@ -861,13 +861,13 @@ pub fn check_colors_wide(n: usize, k: usize, shape: usize, undirected: bool, see
         None => Ok(false),
         Some(got) if got == want => Ok(true),
         Some(got) => Err(v(format!(
-            "the input graph ({} vertices, {} edges, {}) {} {}-colourable but the output graph {} a clique covering every input vertex",
+            "the input graph ({} vertices, {} edges, {}) {} {}-colourable but the output graph {} clique covering every input vertex",
             vs.len(),
             input.len(),
             if want { "built around a proper colouring" } else { "containing a planted clique of k+1 vertices" },
             if want { "is" } else { "is not" },
             k,
-            if got { "has" } else { "has no" }
+            if got { "has a" } else { "has no" }
         ))),
     }
 }
